@@ -132,6 +132,24 @@ class Executor(Engine):
         results = []
         ctx = self.new_ctx(st, s.lineno)
         self.hint_literal(s.value, s.targets[0])
+        v_ = s.value
+        if isinstance(v_, ast.Call) and isinstance(v_.func, ast.Attribute) and v_.func.attr == 'pop' and len(v_.args) == 1 \
+                and not v_.keywords and isinstance(v_.func.value, ast.Name) and v_.func.value.id in st.env \
+                and isinstance(st.env[v_.func.value.id].ty, TDict):
+            # x = d.pop(k): the value at k (KeyError if absent), and d loses k -- before the store to x happens
+            nm = v_.func.value.id
+            d = st.env[nm]
+            k = coerce(self.ev.ev(v_.args[0], ctx), d.ty.k)
+            ctx.exc('KeyError', z3.Not(z3.Select(d.ty.has(d.t), k.t)))
+            val = V(d.ty.v, z3.Select(d.ty.at(d.t), k.t))
+            st2 = self.commit(st, ctx, results).fork()
+            st2.env[nm] = V(d.ty, d.ty.mk(z3.Store(d.ty.has(d.t), k.t, False), d.ty.at(d.t)))
+            for tgt in s.targets:
+                r = self.assign(tgt, val, st2, results, s.lineno)
+                if r is None:
+                    return results
+                st2 = r
+            return results + [(st2, None)]
         val = self.ev.ev(s.value, ctx)
         st2 = self.commit(st, ctx, results).fork()
         for tgt in s.targets:
@@ -259,6 +277,24 @@ class Executor(Engine):
                 return st2
         raise OutOfSubset(f'assignment target {ast.unparse(tgt)} at line {line}')
 
+    def st_Delete(self, s, st):
+        """del d[k] on a dict variable: KeyError if absent, otherwise the key is removed"""
+        results = []
+        for tgt in s.targets:
+            if not (isinstance(tgt, ast.Subscript) and isinstance(tgt.value, ast.Name) and not isinstance(tgt.slice, ast.Slice)):
+                raise OutOfSubset(f'del {ast.unparse(tgt)} at line {s.lineno}')
+            name = tgt.value.id
+            ctx = self.new_ctx(st, s.lineno)
+            base = self.ev.unwrap_opt(st.env[name], ctx)
+            if not isinstance(base.ty, TDict):
+                raise OutOfSubset(f'del on {base.ty} at line {s.lineno}')
+            dt = base.ty
+            k = coerce(self.ev.ev(tgt.slice, ctx), dt.k)
+            ctx.exc('KeyError', z3.Not(z3.Select(dt.has(base.t), k.t)))
+            st = self.commit(st, ctx, results).fork()
+            st.env[name] = coerce(V(dt, dt.mk(z3.Store(dt.has(base.t), k.t, False), dt.at(base.t))), st.env[name].ty)
+        return results + [(st, None)]
+
     def st_AugAssign(self, s, st):
         load = copy_load(s.target)
         fake = ast.Assign(targets=[s.target], value=ast.BinOp(left=load, op=s.op, right=s.value, lineno=s.lineno,
@@ -305,6 +341,16 @@ class Executor(Engine):
                     for a_ in c3.assumes:
                         ctx.assume(a_)
                     ctx.assume(z3.ForAll([y.t], m_new == z3.Or(m_old, y.t == xa)))
+                for fold in getattr(self, 'prefix_folds', []):
+                    # an INSTANCE of the module's inductive lemma "<fold> reads only its prefix" at (new list, old list): stated so
+                    # that the solver does not have to find the instantiation itself
+                    argtys, _ = self.funcs[fold]
+                    if parse_type(argtys[0], self.aliases) == lt:
+                        g_, a_ = self.spec_bool(f'forall(lambda k: implies(k >= 0, implies(forall(lambda j: implies(0 <= j and j < k, '
+                                                f'A_[j] == B_[j])), {fold}(A_, k) == {fold}(B_, k))))', {'A_': new, 'B_': base})
+                        for x_ in a_:
+                            ctx.assume(x_)
+                        ctx.assume(g_)
             elif meth == 'extend' and isinstance(args[0].ty, TList):
                 new = self.ev.list_concat(base, args[0], ctx)
                 new = V(lt, new.t) if new.ty == lt else new
@@ -747,6 +793,46 @@ class Executor(Engine):
         return self.path_count
 
     # ------------------------------------------------------------------ whole function
+    def ground_axioms(self):
+        """GROUND_FORALL facts of the contract module: `forall e: e in TABLE -> body(e)` for a constant table of the real module.
+        Each is CHECKED here, key by key, on the table dumped from the real module (ground instances decided by z3), and only then
+        used as a hypothesis -- a table fact the solver would otherwise have to rediscover by a several-hundred-way case split."""
+        if getattr(self, '_ground_cache', None) is not None:
+            return self._ground_cache
+        out = []
+        for lab, table, var, body in getattr(self, 'ground_forall', []):
+            keys = list(self.globals_[table])
+            ok = True
+            for k in keys:
+                lit = repr(k)
+                g, a = self.spec_bool(f'(lambda {var}: {body})({lit})' if False else body.replace('@' + var, lit), {}, old={}, ghosts={})
+                if z3.is_true(z3.simplify(g)):
+                    continue
+                s_ = z3.Solver()
+                s_.set('timeout', 2000)
+                s_.add(*a)
+                s_.add(z3.Not(g))
+                if s_.check() != z3.unsat:
+                    ok = False
+                    self.notes = getattr(self, 'notes', []) + [f'ground fact {lab} fails for key {k!r}']
+                    break
+            if ok:
+                text = f'forall(lambda e_=str: implies(e_ in {table}, ' + body.replace('@' + var, 'e_') + '))'
+                g, a = self.spec_bool(text, {}, old={}, ghosts={})
+                out += a + [g]
+                self.libs_used.add(f'GROUND[{lab}]: checked on every one of the {len(keys)} keys of the real table {table} in this run')
+        self._ground_cache = out
+        return out
+
+    def inductive_axioms(self):
+        """INDUCTIVE_LEMMAS (label, var, P): `forall var >= 0: P(var)` used as a hypothesis; its base case P(0) and its step
+        P(k) -> P(k+1) are obligations of the same run (generate_lemmas), i.e. the framework applies induction on the naturals"""
+        out = []
+        for lab, var, text in getattr(self, 'inductive', []):
+            g, a = self.spec_bool(f'forall(lambda {var}: implies({var} >= 0, {text}))', {}, old={}, ghosts={})
+            out += a + [g]
+        return out
+
     def generate_lemmas(self, modname, lemmas):
         """LEMMAS of a contract module: statements over the CONTRACTS alone (laws that must follow from the postconditions, e.g.
         symmetry of an equality).  No code is read: a lemma fails only if a contract it mentions no longer carries it."""
@@ -759,6 +845,15 @@ class Executor(Engine):
         for lab, text in _labelled(lemmas):
             g, a = self.spec_bool(text, {}, old={}, ghosts={})
             self.obls.append(Obligation(f'lemmas.{modname}#lemma[{lab}]', pc + a, g, 'lemma', 0, f'lemmas:{modname}'))
+        for lab, var, text in getattr(self, 'inductive', []):
+            k0 = {var: V(INT, z3.IntVal(0))}
+            g, a = self.spec_bool(text, k0, old={}, ghosts={})
+            self.obls.append(Obligation(f'lemmas.{modname}#induction-base[{lab}]', pc + a, g, 'lemma', 0, f'lemmas:{modname}'))
+            kv = z3.Const(var + '!ind', z3.IntSort())
+            gk, ak = self.spec_bool(text, {var: V(INT, kv)}, old={}, ghosts={})
+            gk1, ak1 = self.spec_bool(text, {var: V(INT, kv + 1)}, old={}, ghosts={})
+            self.obls.append(Obligation(f'lemmas.{modname}#induction-step[{lab}]', pc + ak + ak1 + [kv >= 0, gk], gk1, 'lemma', 0,
+                                        f'lemmas:{modname}'))
         return self.obls[n0:]
 
     def generate(self, qual, fnode, canaries=True):
@@ -834,6 +929,8 @@ class Executor(Engine):
         for lab, text in _labelled(self.axioms):
             g, a = self.spec_bool(text, {}, old={}, ghosts={})
             pc += a + [g]
+        pc += self.ground_axioms()
+        pc += self.inductive_axioms()
         c.pre_pc = list(pc)
         st = State(env, pc, z3.K(c.bag_ty.elem.sort(), z3.IntVal(0)) if c.bag_ty else None, old)
         exits = self.exec_block(fnode.body, st)
@@ -1011,8 +1108,15 @@ def make_engine(modname, repo=None):
     eng.sigs = {}
     eng.lemmas = getattr(m, 'LEMMAS', [])
     eng.abstract_methods = getattr(m, 'ABSTRACT_METHODS', {})
+    eng.ground_forall = getattr(m, 'GROUND_FORALL', [])
+    eng.inductive = getattr(m, 'INDUCTIVE_LEMMAS', [])
+    eng.prefix_folds = getattr(m, 'PREFIX_FOLDS', [])
+    for f_ in eng.prefix_folds:
+        if not any(f_ + '-reads-only-its-prefix' == lab for lab, _, _ in eng.inductive):
+            raise RuntimeError(f'PREFIX_FOLDS: {f_} has no inductive lemma {f_}-reads-only-its-prefix in the module')
+    eng._ground_cache = None
     nodes, shas, errors = {}, {}, []
-    if eng.lemmas:
+    if eng.lemmas or eng.inductive:
         import hashlib
         shas['lemmas:' + modname] = hashlib.sha256(open(m.__file__, 'rb').read()).hexdigest()
     for q, c in cons.items():
